@@ -7,4 +7,5 @@ CONSTANTS
 INVARIANT WindowNeverSplits
 INVARIANT WindowMeaning
 INVARIANT WindowMonotone
+INVARIANT EmptyWindowEmpty
 CHECK_DEADLOCK FALSE
